@@ -38,10 +38,12 @@ ValOf(fam, vk) ==
                           [] fam = "float" -> <<ValB(<<V("greater_or_equal", 1, "lit")>>)>>
                           [] fam = "string" -> <<ValB(<<V("not_empty", 0, "lit")>>)>>
                           [] fam = "any" -> <<ValB(<<VF("predicate", "non_empty", "lit")>>)>>)
+    [] vk = "std2"   -> <<ValB(<<V("greater_or_equal", 1, "lit"), V("less_or_equal", 3, "lit")>>)>>       \* a two-sided range is not `finite`
     [] vk = "finite" -> <<ValB(<<V("finite", 0, "lit")>>)>>
+    [] vk = "finite2" -> <<ValB(<<V("greater", 1, "lit"), V("finite", 0, "lit"), V("less", 3, "lit")>>)>>
     [] vk = "custom" -> <<ValB(<<VF("with", "cat", "lit"), VF("error", "cat", "lit")>>)>>
 
-VKinds(fam) == IF fam = "float" THEN {"none", "std", "finite", "custom"} ELSE {"none", "std", "custom"}
+VKinds(fam) == IF fam = "float" THEN {"none", "std", "std2", "finite", "finite2", "custom"} ELSE {"none", "std", "custom"}
 
 \* companions Rust itself requires, so that the trait under test is the only variable
 Companions(t) ==
@@ -72,7 +74,7 @@ SliceB ==
   UNION {
     {Src(fam, <<ValB(<<V(lk, p[1], s1), V(uk, p[2], s2)>>)>>, AllFeats),
      Src(fam, <<ValB(<<V(uk, p[2], s2), V(lk, p[1], s1)>>)>>, AllFeats)}
-    : fam \in {"int", "float"}, lk \in LowerKinds, uk \in UpperKinds, p \in Pos, s1 \in {"lit", "expr"}, s2 \in {"lit", "expr"}}
+    : fam \in {"int", "float"}, lk \in LowerKinds, uk \in UpperKinds, p \in Pos, s1 \in {"lit", "expr", "lit_us"}, s2 \in {"lit", "expr"}}
   \cup {Src(fam, <<ValB(<<V("greater", 1, sp), V("greater_or_equal", 1, sp)>>)>>, AllFeats) : fam \in {"int", "float"}, sp \in {"lit", "expr"}}
   \cup {Src(fam, <<ValB(<<V("less", 3, sp), V("less_or_equal", 3, sp)>>)>>, AllFeats) : fam \in {"int", "float"}, sp \in {"lit", "expr"}}
   \cup {Src(fam, <<ValB(<<V(k, 2, "lit"), V(k, 2, "lit")>>)>>, AllFeats) : fam \in {"int", "float"}, k \in LowerKinds \cup UpperKinds}
@@ -148,7 +150,7 @@ SliceG ==
 \* ---- slice K: const_fn / default / custom error / generics across the non-string families (C15 builds these in a #![no_std] crate)
 SliceK ==
   UNION {{Src(fam, ValOf(fam, vk) \o <<DerB(AsSeq(D))>> \o dfl \o cf, AllFeats) :
-            vk \in VKinds(fam), dfl \in {<<>>, <<DflB("valid")>>}, cf \in {<<>>, <<Blk("const_fn")>>},
+            vk \in VKinds(fam) \ {"std2", "finite2"}, dfl \in {<<>>, <<DflB("valid")>>}, cf \in {<<>>, <<Blk("const_fn")>>},
             D \in {{"Debug"}, {"Debug", "Clone", "Copy", "PartialEq", "PartialOrd"}, {"Debug", "FromStr", "Display"},
                    {"Debug", "TryFrom", "Into", "AsRef", "Deref", "Borrow"}, {"Serialize", "Deserialize"}, {"Debug", "Default"},
                    {"Debug", "Arbitrary"}, {"Debug", "Clone", "PartialEq", "Eq", "PartialOrd", "Ord", "Hash"}}}
